@@ -39,25 +39,69 @@ enum Par<'a> {
     Of(&'a Span),
 }
 
-macro_rules! shape {
-    ($p:ident, $v:ident; $($($k:ident).+ = $i:literal),*) => {
+/// one call site per parent form; `$pre` = nothing or `target: "..",`
+macro_rules! sp {
+    ($p:ident; [$($pre:tt)*] $lvl:expr, $name:literal; $($f:tt)*) => {
         match $p {
-            Par::Ctx => tracing::span!(tracing::Level::INFO, "s", $($($k).+ = $v[$i]),*),
-            Par::Root => tracing::span!(parent: None::<tracing::Id>, tracing::Level::INFO, "s", $($($k).+ = $v[$i]),*),
-            Par::Of(ps) => tracing::span!(parent: ps, tracing::Level::INFO, "s", $($($k).+ = $v[$i]),*),
+            Par::Ctx => tracing::span!($($pre)* $lvl, $name, $($f)*),
+            Par::Root => tracing::span!($($pre)* parent: None::<tracing::Id>, $lvl, $name, $($f)*),
+            Par::Of(ps) => tracing::span!($($pre)* parent: ps, $lvl, $name, $($f)*),
         }
+    };
+}
+
+/// span metadata (level, name, target) is compile-time too: every shape exists with each of `METAS`
+macro_rules! with_meta {
+    ($p:ident, $m:ident; $($f:tt)*) => {
+        match $m {
+            0 => sp!($p; [] tracing::Level::INFO, "s"; $($f)*),
+            1 => sp!($p; [target: "mv::other",] tracing::Level::DEBUG, "_hid"; $($f)*),
+            2 => sp!($p; [] tracing::Level::ERROR, "child"; $($f)*),
+            _ => sp!($p; [target: "x",] tracing::Level::TRACE, "a b"; $($f)*),
+        }
+    };
+}
+
+/// (level, name, target or "" for the harness module) of the metadata variants
+const METAS: &[(&str, &str, &str)] = &[("INFO", "s", ""), ("DEBUG", "_hid", "mv::other"), ("ERROR", "child", ""), ("TRACE", "a b", "x")];
+
+macro_rules! shape {
+    ($p:ident, $v:ident, $m:ident; $($($k:ident).+ = $i:literal),*) => {
+        with_meta!($p, $m; $($($k).+ = $v[$i]),*)
+    };
+}
+
+/// the wide shapes exist with the first metadata variant only (compile time)
+macro_rules! shape0 {
+    ($p:ident, $v:ident; $($($k:ident).+ = $i:literal),*) => {
+        sp!($p; [] tracing::Level::INFO, "s"; $($($k).+ = $v[$i]),*)
     };
 }
 
 /// the same with string-literal field names (anything that is not an identifier)
 macro_rules! shape_lit {
-    ($p:ident, $v:ident; $($k:literal = $i:literal),*) => {
+    ($p:ident, $v:ident, $m:ident; $($k:literal = $i:literal),*) => {
+        with_meta!($p, $m; $($k = $v[$i]),*)
+    };
+}
+
+/// events: field names overlap the span field names
+macro_rules! ev {
+    ($p:ident; $lvl:expr; $($f:tt)*) => {
         match $p {
-            Par::Ctx => tracing::span!(tracing::Level::INFO, "s", $($k = $v[$i]),*),
-            Par::Root => tracing::span!(parent: None::<tracing::Id>, tracing::Level::INFO, "s", $($k = $v[$i]),*),
-            Par::Of(ps) => tracing::span!(parent: ps, tracing::Level::INFO, "s", $($k = $v[$i]),*),
+            Par::Ctx => tracing::event!($lvl, $($f)*),
+            Par::Root => tracing::event!(parent: None::<tracing::Id>, $lvl, $($f)*),
+            Par::Of(ps) => tracing::event!(parent: ps, $lvl, $($f)*),
         }
     };
+}
+const EVENT_SHAPES: &[&[&str]] = &[&["a", "b"], &["c", "k.x", "zz"], &["région", "a"]];
+fn make_event(es: usize, p: Par<'_>, v: &[&dyn Value]) {
+    match es {
+        0 => ev!(p; tracing::Level::INFO; a = v[0], b = v[1]),
+        1 => ev!(p; tracing::Level::ERROR; c = v[0], k.x = v[1], zz = v[2], "an event with a message"),
+        _ => ev!(p; tracing::Level::TRACE; région = v[0], a = v[1]),
+    }
 }
 
 const SHAPES: &[&[&str]] = &[
@@ -96,30 +140,30 @@ const NEAR_SHAPES: &[usize] = &[16, 17];
 const UNI_SHAPES: &[usize] = &[18, 19, 20, 21];
 
 #[allow(unused_variables)]
-fn make_span(shape: usize, p: Par<'_>, v: &[&dyn Value]) -> Span {
+fn make_span(shape: usize, m: usize, p: Par<'_>, v: &[&dyn Value]) -> Span {
     match shape {
-        0 => shape!(p, v;),
-        1 => shape!(p, v; a = 0),
-        2 => shape!(p, v; b = 0),
-        3 => shape!(p, v; a = 0, b = 1),
-        4 => shape!(p, v; b = 0, a = 1),
-        5 => shape!(p, v; b = 0, c = 1),
-        6 => shape!(p, v; a = 0, b = 1, c = 2),
-        7 => shape!(p, v; c = 0, a = 1),
-        8 => shape!(p, v; k.x = 0, a = 1),
-        9 => shape!(p, v; c = 0, k.x = 1, b = 2),
-        10 => shape!(p, v; a = 0, b = 1, c = 2, k.x = 3),
-        11 => shape!(p, v; a = 0, a = 1),
-        12 => shape!(p, v; a00 = 0, a01 = 1, a02 = 2, a03 = 3, a04 = 4, a05 = 5, a06 = 6, a07 = 7, a08 = 8, a09 = 9, a10 = 10, a11 = 11, a12 = 12, a13 = 13, a14 = 14, a15 = 15, a16 = 16, a17 = 17, a18 = 18, a19 = 19),
-        13 => shape!(p, v; b00 = 0, b01 = 1, b02 = 2, b03 = 3, b04 = 4, b05 = 5, b06 = 6, b07 = 7, b08 = 8, b09 = 9, b10 = 10, b11 = 11, b12 = 12, b13 = 13, b14 = 14, b15 = 15, b16 = 16, b17 = 17, b18 = 18, b19 = 19),
-        14 => shape!(p, v; a00 = 0, a02 = 1, a04 = 2, a06 = 3, a08 = 4, a10 = 5, a12 = 6, a14 = 7, a16 = 8, a18 = 9, a = 10, b = 11, b01 = 12, b03 = 13, b05 = 14, b07 = 15, b09 = 16, b11 = 17, b13 = 18, b15 = 19, b17 = 20, b19 = 21),
-        15 => shape!(p, v; w00 = 0, w01 = 1, w02 = 2, w03 = 3, w04 = 4, w05 = 5, w06 = 6, w07 = 7, w08 = 8, w09 = 9, w10 = 10, w11 = 11, w12 = 12, w13 = 13, w14 = 14, w15 = 15, w16 = 16, w17 = 17, w18 = 18, w19 = 19, w20 = 20, w21 = 21, w22 = 22, w23 = 23, w24 = 24, w25 = 25, w26 = 26, w27 = 27, w28 = 28, w29 = 29, w30 = 30, w31 = 31),
-        16 => shape!(p, v; A = 0, ab = 1, k = 2, a = 3),
-        17 => shape!(p, v; k = 0, k.x = 1, ab = 2, a0 = 3),
-        18 => shape!(p, v; région = 0, env = 1),
-        19 => shape!(p, v; 地域 = 0, a = 1),
-        20 => shape!(p, v; ключ = 0, région = 1, b = 2, ñ = 3),
-        21 => shape_lit!(p, v; "🦀" = 0, "re\u{301}gion" = 1, "région" = 2, "k.ü" = 3, "地" = 4),
+        0 => shape!(p, v, m;),
+        1 => shape!(p, v, m; a = 0),
+        2 => shape!(p, v, m; b = 0),
+        3 => shape!(p, v, m; a = 0, b = 1),
+        4 => shape!(p, v, m; b = 0, a = 1),
+        5 => shape!(p, v, m; b = 0, c = 1),
+        6 => shape!(p, v, m; a = 0, b = 1, c = 2),
+        7 => shape!(p, v, m; c = 0, a = 1),
+        8 => shape!(p, v, m; k.x = 0, a = 1),
+        9 => shape!(p, v, m; c = 0, k.x = 1, b = 2),
+        10 => shape!(p, v, m; a = 0, b = 1, c = 2, k.x = 3),
+        11 => shape!(p, v, m; a = 0, a = 1),
+        12 => shape0!(p, v; a00 = 0, a01 = 1, a02 = 2, a03 = 3, a04 = 4, a05 = 5, a06 = 6, a07 = 7, a08 = 8, a09 = 9, a10 = 10, a11 = 11, a12 = 12, a13 = 13, a14 = 14, a15 = 15, a16 = 16, a17 = 17, a18 = 18, a19 = 19),
+        13 => shape0!(p, v; b00 = 0, b01 = 1, b02 = 2, b03 = 3, b04 = 4, b05 = 5, b06 = 6, b07 = 7, b08 = 8, b09 = 9, b10 = 10, b11 = 11, b12 = 12, b13 = 13, b14 = 14, b15 = 15, b16 = 16, b17 = 17, b18 = 18, b19 = 19),
+        14 => shape0!(p, v; a00 = 0, a02 = 1, a04 = 2, a06 = 3, a08 = 4, a10 = 5, a12 = 6, a14 = 7, a16 = 8, a18 = 9, a = 10, b = 11, b01 = 12, b03 = 13, b05 = 14, b07 = 15, b09 = 16, b11 = 17, b13 = 18, b15 = 19, b17 = 20, b19 = 21),
+        15 => shape0!(p, v; w00 = 0, w01 = 1, w02 = 2, w03 = 3, w04 = 4, w05 = 5, w06 = 6, w07 = 7, w08 = 8, w09 = 9, w10 = 10, w11 = 11, w12 = 12, w13 = 13, w14 = 14, w15 = 15, w16 = 16, w17 = 17, w18 = 18, w19 = 19, w20 = 20, w21 = 21, w22 = 22, w23 = 23, w24 = 24, w25 = 25, w26 = 26, w27 = 27, w28 = 28, w29 = 29, w30 = 30, w31 = 31),
+        16 => shape!(p, v, m; A = 0, ab = 1, k = 2, a = 3),
+        17 => shape!(p, v, m; k = 0, k.x = 1, ab = 2, a0 = 3),
+        18 => shape!(p, v, m; région = 0, env = 1),
+        19 => shape!(p, v, m; 地域 = 0, a = 1),
+        20 => shape!(p, v, m; ключ = 0, région = 1, b = 2, ñ = 3),
+        21 => shape_lit!(p, v, m; "🦀" = 0, "re\u{301}gion" = 1, "région" = 2, "k.ü" = 3, "地" = 4),
         _ => unreachable!(),
     }
 }
@@ -141,8 +185,21 @@ enum Val {
     Dbg(String),
     Disp(String),
     OptU(Option<u64>),
+    /// `&(dyn Error + 'static)`: `record_error`, rendered through `Display`
+    Err(String),
+    /// `&[u8]`: `record_bytes`, rendered as `[xx xx ..]`
+    Bytes(Vec<u8>),
     Empty,
 }
+
+#[derive(Debug)]
+struct MvErr(String);
+impl std::fmt::Display for MvErr {
+    fn fmt(&self, f: &mut std::fmt::Formatter<'_>) -> std::fmt::Result {
+        f.write_str(&self.0)
+    }
+}
+impl std::error::Error for MvErr {}
 
 impl Val {
     fn boxed(&self) -> Box<dyn Value> {
@@ -159,6 +216,11 @@ impl Val {
             Val::Dbg(s) => Box::new(tracing::field::debug(s.clone())),
             Val::Disp(s) => Box::new(tracing::field::display(s.clone())),
             Val::OptU(o) => Box::new(*o),
+            Val::Err(s) => {
+                let e: Box<dyn std::error::Error + 'static> = Box::new(MvErr(s.clone()));
+                Box::new(e)
+            }
+            Val::Bytes(b) => Box::new(b.clone().into_boxed_slice()),
             Val::Empty => Box::new(tracing::field::Empty),
         }
     }
@@ -173,6 +235,9 @@ impl Val {
             Val::U8(u) => format!("u{}", u),
             Val::OptU(Some(u)) => format!("u{}", u),
             Val::OptU(None) | Val::Empty => "e".to_string(),
+            // 128-bit integers end in `record_debug(&value)`: decimal, which the model's integer rendering computes
+            Val::I128(i) => format!("i{}", i),
+            Val::U128(u) => format!("u{}", u),
             other => format!("d{}", hexs(&other.rendered().unwrap())),
         }
     }
@@ -191,6 +256,8 @@ impl Val {
             Val::Dbg(s) => format!("{:?}", s),
             Val::Disp(s) => s.clone(),
             Val::OptU(Some(u)) => u.to_string(),
+            Val::Err(s) => s.clone(),
+            Val::Bytes(b) => format!("[{}]", b.iter().map(|x| format!("{:02x}", x)).collect::<Vec<_>>().join(" ")),
             Val::OptU(None) | Val::Empty => return None,
         })
     }
@@ -206,6 +273,8 @@ impl Val {
             Val::Disp(_) => "display",
             Val::OptU(Some(_)) => "some",
             Val::OptU(None) => "none",
+            Val::Err(_) => "error",
+            Val::Bytes(_) => "bytes",
             Val::Empty => "empty",
         }
     }
@@ -223,7 +292,11 @@ enum ParSpec {
 
 #[derive(Clone, Debug)]
 enum POp {
-    New { t: usize, parent: ParSpec, shape: usize, vals: Vec<Val> },
+    New { t: usize, parent: ParSpec, shape: usize, meta: usize, vals: Vec<Val> },
+    /// `tracing::event!` with fields, in the current span / as a root / under an explicit parent
+    Event { t: usize, parent: ParSpec, es: usize, vals: Vec<Val> },
+    /// `spans[id].follows_from(&spans[other])`
+    Follows { t: usize, id: usize, other: usize },
     Rec { t: usize, id: usize, field: &'static str, val: Val },
     Enter { t: usize, id: usize },
     Exit { t: usize, id: usize },
@@ -236,7 +309,7 @@ enum POp {
 impl POp {
     fn thread(&self) -> usize {
         match self {
-            POp::New { t, .. } | POp::Rec { t, .. } | POp::Enter { t, .. } | POp::Exit { t, .. } | POp::Emit { t, .. } | POp::Close { t, .. } => *t,
+            POp::New { t, .. } | POp::Event { t, .. } | POp::Follows { t, .. } | POp::Rec { t, .. } | POp::Enter { t, .. } | POp::Exit { t, .. } | POp::Emit { t, .. } | POp::Close { t, .. } => *t,
         }
     }
 }
@@ -254,6 +327,8 @@ struct Program {
     threads: usize,
     /// false: the subscriber is a bare `registry()` without a `MetricsLayer`
     layer: bool,
+    /// how the subscriber is put together (`build_dispatch`)
+    comp: usize,
     ops: Vec<POp>,
     /// direct calls of the filter's `should_include_label(metric name, label key, label value)`, made after the ops
     probes: Vec<(String, String, String)>,
@@ -409,6 +484,11 @@ struct Ans {
     closed: Option<bool>,
     /// New: the registry slot the span lives in
     slot: Option<u64>,
+    /// New: `Span::is_disabled()`; the span's metadata is what the call site says
+    disabled: bool,
+    meta_ok: bool,
+    /// Event: the event is inside some (enabled) span
+    has_target: bool,
 }
 
 /// `Registry` ids are `sharded_slab` pool indices + 1: the low 51 bits (38 of page address, 13 of shard / thread id,
@@ -439,7 +519,7 @@ static META: Metadata<'static> = Metadata::new("mv", metrics::Level::INFO, Some(
 fn exec_op(sh: &Shared, op: &POp) -> Ans {
     let mut ans = Ans { cur_before: current_index(sh), ..Default::default() };
     match op {
-        POp::New { parent, shape, vals, .. } => {
+        POp::New { parent, shape, meta, vals, .. } => {
             let boxes: Vec<Box<dyn Value>> = vals.iter().map(|v| v.boxed()).collect();
             let refs: Vec<&dyn Value> = boxes.iter().map(|b| &**b).collect();
             let span = {
@@ -449,11 +529,49 @@ fn exec_op(sh: &Shared, op: &POp) -> Ans {
                     ParSpec::Root => Par::Root,
                     ParSpec::Of(i) => Par::Of(spans[*i].as_ref().expect("parent span was closed")),
                 };
-                make_span(*shape, p, &refs)
+                make_span(*shape, *meta, p, &refs)
             };
             ans.map = span_map(&sh.dispatch, &span);
             ans.slot = slot_of(&span);
+            ans.disabled = span.is_disabled();
+            let md = span.metadata();
+            ans.meta_ok = md.map_or(true, |md| {
+                let (lvl, name, target) = METAS[*meta];
+                md.level().to_string() == lvl && md.name() == name && (if target.is_empty() { md.target() == module_path!() } else { md.target() == target })
+            });
             sh.spans.lock().unwrap().push(Some(span));
+        }
+        POp::Event { parent, es, vals, .. } => {
+            let boxes: Vec<Box<dyn Value>> = vals.iter().map(|v| v.boxed()).collect();
+            let refs: Vec<&dyn Value> = boxes.iter().map(|b| &**b).collect();
+            let target: Option<Span> = {
+                let spans = sh.spans.lock().unwrap();
+                match parent {
+                    ParSpec::Ctx => {
+                        make_event(*es, Par::Ctx, &refs);
+                        ans.cur_before.and_then(|c| spans[c].clone())
+                    }
+                    ParSpec::Root => {
+                        make_event(*es, Par::Root, &refs);
+                        None
+                    }
+                    ParSpec::Of(i) => {
+                        let ps = spans[*i].as_ref().expect("parent span was closed");
+                        make_event(*es, Par::Of(ps), &refs);
+                        if ps.is_disabled() { None } else { Some(ps.clone()) }
+                    }
+                }
+            };
+            ans.has_target = target.is_some();
+            ans.map = target.and_then(|sp| span_map(&sh.dispatch, &sp));
+        }
+        POp::Follows { id, other, .. } => {
+            let (a, b) = {
+                let spans = sh.spans.lock().unwrap();
+                (spans[*id].clone().expect("span was closed"), spans[*other].clone().expect("span was closed"))
+            };
+            a.follows_from(&b);
+            ans.map = span_map(&sh.dispatch, &a);
         }
         POp::Rec { id, field, val, .. } => {
             let span = sh.spans.lock().unwrap()[*id].clone().expect("span was closed");
@@ -537,6 +655,71 @@ fn build_filter(filter: &FilterSpec) -> Box<dyn LabelFilter> {
     }
 }
 
+/// what a span is to the `MetricsLayer`, by the subscriber's composition and the span's metadata
+#[derive(Clone, Copy, PartialEq, Debug)]
+enum Kind {
+    /// the layer sees it
+    On,
+    /// the per-layer filter on the `MetricsLayer` turned it down, some other layer wants it: it exists in the registry
+    Hidden,
+    /// nobody wants it (global filter, or every per-layer filter said no): the `Span` is disabled, it has no id
+    Off,
+}
+
+fn span_kind(layer: bool, comp: usize, meta: usize) -> Kind {
+    if !layer {
+        return Kind::On;
+    }
+    let deep = meta == 1 || meta == 3; // DEBUG / TRACE
+    match comp {
+        2 | 6 if deep => Kind::Off,
+        3 if deep => Kind::Hidden,
+        4 if meta == 1 => Kind::Hidden,
+        5 if meta == 3 => Kind::Hidden,
+        _ => Kind::On,
+    }
+}
+
+/// a layer that does nothing (its presence changes the type `S` the `MetricsLayer` is stacked on / what is above it)
+struct Noop;
+impl<S: tracing::Subscriber> tracing_subscriber::Layer<S> for Noop {}
+
+fn build_dispatch(layer: bool, comp: usize) -> Dispatch {
+    use tracing_subscriber::filter::{filter_fn, LevelFilter};
+    use tracing_subscriber::Layer as _;
+    if !layer {
+        return Dispatch::new(tracing_subscriber::registry());
+    }
+    match comp {
+        0 => Dispatch::new(tracing_subscriber::registry().with(MetricsLayer::new())),
+        // layers below and above: `S` of `downcast_ref::<S>()` is a `Layered<..>`
+        1 => Dispatch::new(tracing_subscriber::registry().with(Noop).with(MetricsLayer::new()).with(Noop)),
+        // a global level filter: DEBUG / TRACE spans are disabled altogether
+        2 => Dispatch::new(tracing_subscriber::registry().with(LevelFilter::INFO).with(MetricsLayer::new())),
+        // per-layer filters on the MetricsLayer (by level / span name / target); a second layer wants everything
+        3 => Dispatch::new(
+            tracing_subscriber::registry()
+                .with(MetricsLayer::new().with_filter(filter_fn(|m| *m.level() <= tracing::Level::INFO)))
+                .with(Noop.with_filter(LevelFilter::TRACE)),
+        ),
+        4 => Dispatch::new(
+            tracing_subscriber::registry()
+                .with(Noop.with_filter(LevelFilter::TRACE))
+                .with(MetricsLayer::new().with_filter(filter_fn(|m| !m.name().starts_with('_')))),
+        ),
+        5 => Dispatch::new(
+            tracing_subscriber::registry()
+                .with(Noop)
+                .with(MetricsLayer::new().with_filter(filter_fn(|m| m.target() != "x")))
+                .with(Noop.with_filter(LevelFilter::TRACE)),
+        ),
+        // the filtered MetricsLayer alone: a span it turns down is wanted by nobody
+        _ => Dispatch::new(
+            tracing_subscriber::registry().with(MetricsLayer::new().with_filter(filter_fn(|m| *m.level() <= tracing::Level::INFO))),
+        ),
+    }
+}
+
 fn is_register(l: &Logged) -> bool {
     matches!(l.kind, 'c' | 'g' | 'h')
 }
@@ -544,11 +727,7 @@ fn is_register(l: &Logged) -> bool {
 /// runs `prog` on fresh real objects; `f` is called on the driving thread after every op
 fn execute(prog: &Program, mut f: impl FnMut(usize, &POp, Ans)) {
     let log = Arc::new(Mutex::new(Vec::new()));
-    let dispatch = if prog.layer {
-        Dispatch::new(tracing_subscriber::registry().with(MetricsLayer::new()))
-    } else {
-        Dispatch::new(tracing_subscriber::registry())
-    };
+    let dispatch = build_dispatch(prog.layer, prog.comp);
     let shared = Shared { dispatch, spans: Mutex::new(Vec::new()), layer: prog.layer, log: log.clone() };
     let recorder = build_recorder(&prog.filter, log);
     let shared = &shared;
@@ -647,16 +826,71 @@ fn run_logged(prog: &Program, out: &mut Out) -> (Vec<Option<usize>>, Vec<Option<
     let mut closed_spans: BTreeSet<usize> = BTreeSet::new();
     let mut reused = 0usize;
     let mut lines: Vec<(String, String)> = vec![];
+    if prog.layer {
+        out.count(&format!("subscriber composition {}", prog.comp));
+    }
+    let with_slots = prog.layer && prog.comp != 2 && prog.comp != 6;
+    let mut kinds: Vec<Kind> = vec![];
+    let mut reg_parent: Vec<Option<usize>> = vec![];
+    let mut hidden_emits = (0usize, 0usize);
+    // `SpanRef::parent()` under a per-layer filter: the closest ancestor the layer sees
+    fn nearest_on(kinds: &[Kind], reg_parent: &[Option<usize>], mut p: Option<usize>) -> Option<usize> {
+        while let Some(x) = p {
+            if kinds[x] == Kind::On {
+                return Some(x);
+            }
+            p = reg_parent[x];
+        }
+        None
+    }
     execute(prog, |i, op, a| match op {
-        POp::New { t, parent, shape, vals } => {
+        POp::New { t, parent, shape, meta, vals } => {
             let names = SHAPES[*shape];
+            let kind = span_kind(prog.layer, prog.comp, *meta);
+            if a.disabled != (kind == Kind::Off) || !a.meta_ok {
+                fails.push(("harness expectation: which spans the subscriber disables altogether / the metadata of a call site".into(),
+                            format!("op {} comp {} meta {:?} expected {:?}, Span::is_disabled() = {}, metadata as declared = {}", i, prog.comp, METAS[*meta], kind, a.disabled, a.meta_ok)));
+            }
+            // a disabled span is nobody's parent: `parent: &span` of it makes a root
             let ptok = match parent {
                 ParSpec::Ctx => "c".to_string(),
                 ParSpec::Root => "r".to_string(),
+                ParSpec::Of(p) if kinds[*p] == Kind::Off => "r".to_string(),
                 ParSpec::Of(p) => p.to_string(),
             };
+            let p_reg = match parent {
+                ParSpec::Ctx => a.cur_before,
+                ParSpec::Root => None,
+                ParSpec::Of(p) if kinds[*p] == Kind::Off => None,
+                ParSpec::Of(p) => Some(*p),
+            };
+            resolved[i] = p_reg;
+            if kind != Kind::On {
+                let n = hists.len();
+                if kind == Kind::Off {
+                    lines.push((format!("tracing newoff {}", t), format!("{} {}", n, if a.disabled && a.map.is_none() && a.slot.is_none() { "off" } else { "not-off" })));
+                    reg_parent.push(None);
+                } else {
+                    let mut line = format!("tracing newhid {} {}", t, ptok);
+                    if let (true, Some(slot)) = (with_slots, a.slot) {
+                        line.push_str(&format!(" {}", slot));
+                        if let Some(prev) = slot_owner.insert(slot, n) {
+                            reused += 1;
+                            if !closed_spans.contains(&prev) {
+                                fails.push(("the registry handed a new span the slot of a span that is still alive".into(),
+                                            format!("op {} slot {} previous span {}", i, slot, prev)));
+                            }
+                        }
+                    }
+                    lines.push((line, format!("{} {}", n, a.map.as_ref().map(|m| pairs(m)).unwrap_or_else(|| "no-labels".into()))));
+                    reg_parent.push(p_reg);
+                }
+                kinds.push(kind);
+                hists.push(Hist::default());
+                return;
+            }
             let mut line = format!("tracing new {} {} {}", t, ptok, fields_tok(names, vals));
-            if let (true, Some(slot)) = (prog.layer, a.slot) {
+            if let (true, Some(slot)) = (with_slots, a.slot) {
                 // the slot the real registry chose goes to the model, which stores the labels in it
                 line.push_str(&format!(" {}", slot));
                 if let Some(prev) = slot_owner.insert(slot, hists.len()) {
@@ -669,12 +903,10 @@ fn run_logged(prog: &Program, out: &mut Out) -> (Vec<Option<usize>>, Vec<Option<
             }
             let map = a.map.clone();
             lines.push((line, format!("{} {}", hists.len(), map.as_ref().map(|m| pairs(m)).unwrap_or_else(|| "no-labels".into()))));
-            let p = match parent {
-                ParSpec::Ctx => a.cur_before,
-                ParSpec::Root => None,
-                ParSpec::Of(p) => Some(*p),
-            };
-            resolved[i] = p;
+            // the labels come from the closest ancestor the layer sees, as that one is NOW
+            let p = nearest_on(&kinds, &reg_parent, p_reg);
+            kinds.push(Kind::On);
+            reg_parent.push(p_reg);
             let own: Vec<(String, String)> =
                 names.iter().zip(vals).filter_map(|(n, v)| v.rendered().map(|r| (n.to_string(), r))).collect();
             let mut h = Hist { levels: vec![own] };
@@ -699,8 +931,20 @@ fn run_logged(prog: &Program, out: &mut Out) -> (Vec<Option<usize>>, Vec<Option<
             hists.push(h);
         }
         POp::Rec { t, id, field, val } => {
+            if kinds[*id] == Kind::Off {
+                if a.map.is_some() || a.cur_after != a.cur_before {
+                    fails.push(("record() on a disabled span had an effect".into(), format!("op {}", i)));
+                }
+                return;
+            }
             let line = format!("tracing rec {} {} {}:{}", t, id, hexs(field), val.token());
             lines.push((line, a.map.as_ref().map(|m| pairs(m)).unwrap_or_else(|| "no-labels".into())));
+            if kinds[*id] == Kind::Hidden {
+                if a.map.is_some() {
+                    fails.push(("a span the layer's filter turned down got a Labels extension through record()".into(), format!("op {} map {:?}", i, a.map)));
+                }
+                return;
+            }
             if let Some(r) = val.rendered() {
                 hists[*id].levels[0].push((field.to_string(), r));
             }
@@ -712,11 +956,55 @@ fn run_logged(prog: &Program, out: &mut Out) -> (Vec<Option<usize>>, Vec<Option<
                 }
             }
         }
+        POp::Enter { id, .. } | POp::Exit { id, .. } if kinds[*id] == Kind::Off => {
+            if a.cur_after != a.cur_before {
+                fails.push(("entering / leaving a disabled span changed the current span".into(), format!("op {}", i)));
+            }
+        }
         POp::Enter { t, id } => {
             lines.push((format!("tracing enter {} {}", t, id), opt_idx(a.cur_after)));
         }
         POp::Exit { t, id } => {
             lines.push((format!("tracing exit {} {}", t, id), opt_idx(a.cur_after)));
+        }
+        POp::Event { t, parent, es, vals } => {
+            let ptok = match parent {
+                ParSpec::Ctx => "c".to_string(),
+                ParSpec::Root => "r".to_string(),
+                ParSpec::Of(p) if kinds[*p] == Kind::Off => "r".to_string(),
+                ParSpec::Of(p) => p.to_string(),
+            };
+            let target = match parent {
+                ParSpec::Ctx => a.cur_before,
+                ParSpec::Root => None,
+                ParSpec::Of(p) if kinds[*p] == Kind::Off => None,
+                ParSpec::Of(p) => Some(*p),
+            };
+            let ans = if !a.has_target { "~".to_string() } else { a.map.as_ref().map(|m| pairs(m)).unwrap_or_else(|| "no-labels".into()) };
+            lines.push((format!("tracing event {} {} {}", t, ptok, fields_tok(EVENT_SHAPES[*es], vals)), ans));
+            if a.has_target != target.is_some() {
+                fails.push(("harness expectation: which span an event is in".into(), format!("op {} expected {:?}", i, target)));
+            }
+            if let (Some(c), Some(m)) = (target, &a.map) {
+                let got: BTreeMap<String, String> = m.iter().cloned().collect();
+                if kinds[c] == Kind::On && got != hists[c].visible() {
+                    fails.push(("an event changed the fields visible from the span it happened in (events are not span fields)".into(),
+                                format!("op {} span {} got {:?} expected {:?}", i, c, got, hists[c].visible())));
+                }
+            }
+        }
+        POp::Follows { id, other, .. } => {
+            lines.push((format!("tracing follows {} {}", id, other), a.map.as_ref().map(|m| pairs(m)).unwrap_or_else(|| "no-labels".into())));
+            if let Some(m) = &a.map {
+                let got: BTreeMap<String, String> = m.iter().cloned().collect();
+                if kinds[*id] == Kind::On && got != hists[*id].visible() {
+                    fails.push(("follows_from changed the fields visible from a span (the followed span is no ancestor)".into(),
+                                format!("op {} span {} follows {} got {:?} expected {:?}", i, id, other, got, hists[*id].visible())));
+                }
+            }
+        }
+        POp::Close { id, .. } if kinds[*id] == Kind::Off => {
+            closed_spans.insert(*id);
         }
         POp::Close { t, id } => {
             closed_spans.insert(*id);
@@ -776,7 +1064,16 @@ fn run_logged(prog: &Program, out: &mut Out) -> (Vec<Option<usize>>, Vec<Option<
                 fails.push(("a describe call appeared from nowhere".into(), format!("op {} got {:?}", i, descs)));
             }
             let visible = match a.cur_before {
-                Some(c) if prog.layer => hists[c].visible(),
+                Some(c) if prog.layer && kinds[c] == Kind::On => hists[c].visible(),
+                Some(c) if prog.layer && kinds[c] == Kind::Hidden => {
+                    // `current_span()` is a span without `Labels`: the key passes unchanged, whatever the ancestors
+                    // the layer does see carry (model: `fil_hidden_current_unchanged`, `fil_hidden_drops_ancestor_fields`)
+                    hidden_emits.0 += 1;
+                    if nearest_on(&kinds, &reg_parent, reg_parent[c]).map_or(false, |q| !hists[q].visible().is_empty()) {
+                        hidden_emits.1 += 1;
+                    }
+                    BTreeMap::new()
+                }
                 _ => BTreeMap::new(),
             };
             let distinct = distinct_names(labels);
@@ -819,6 +1116,19 @@ fn run_logged(prog: &Program, out: &mut Out) -> (Vec<Option<usize>>, Vec<Option<
     });
     for (l, a) in &lines {
         out.op(l, a);
+    }
+    if hidden_emits.0 > 0 {
+        out.count_n("emit inside a span the MetricsLayer's own filter turned down (key unchanged)", hidden_emits.0 as u64);
+    }
+    if hidden_emits.1 > 0 {
+        out.count_n("emit inside a hidden span whose enabled ancestor has fields (they do not reach the key)", hidden_emits.1 as u64);
+    }
+    for k in &kinds {
+        match k {
+            Kind::On => {}
+            Kind::Hidden => out.count("new: hidden from the MetricsLayer by its per-layer filter"),
+            Kind::Off => out.count("new: disabled span (global filter / no layer wants it)"),
+        }
     }
     for _ in 0..reused {
         out.count("new: the span got the registry slot of a span that closed earlier (id reuse)");
@@ -902,7 +1212,7 @@ fn check_thread_independence(prog: &Program, resolved: &[Option<usize>], emitted
     let mut want = vec![];
     for (i, op) in prog.ops.iter().enumerate() {
         match op {
-            POp::New { t: u, parent, shape, vals } => {
+            POp::New { t: u, parent, shape, meta, vals } => {
                 let parent = if *u == t {
                     parent.clone()
                 } else {
@@ -912,9 +1222,15 @@ fn check_thread_independence(prog: &Program, resolved: &[Option<usize>], emitted
                         (p, _) => p.clone(),
                     }
                 };
-                ops.push(POp::New { t: *u, parent, shape: *shape, vals: vals.clone() });
+                ops.push(POp::New { t: *u, parent, shape: *shape, meta: *meta, vals: vals.clone() });
             }
-            POp::Rec { .. } | POp::Close { .. } => ops.push(op.clone()),
+            POp::Event { t: u, parent, .. } => {
+                // a contextual event of another thread would need that thread's current span
+                if *u == t || !matches!(parent, ParSpec::Ctx) {
+                    ops.push(op.clone())
+                }
+            }
+            POp::Rec { .. } | POp::Close { .. } | POp::Follows { .. } => ops.push(op.clone()),
             POp::Enter { t: u, .. } | POp::Exit { t: u, .. } => {
                 if *u == t {
                     ops.push(op.clone())
@@ -928,7 +1244,7 @@ fn check_thread_independence(prog: &Program, resolved: &[Option<usize>], emitted
             }
         }
     }
-    let proj = Program { filter: prog.filter.clone(), threads: prog.threads, layer: prog.layer, ops, probes: vec![] };
+    let proj = Program { filter: prog.filter.clone(), threads: prog.threads, layer: prog.layer, comp: prog.comp, ops, probes: vec![] };
     let mut got = vec![];
     execute(&proj, |_, op, a| {
         if let POp::Emit { .. } = op {
@@ -961,8 +1277,24 @@ const UNI_ALLOW_NAMES: &[&str] = &[
 const METRIC_NAMES: &[&str] = &["m", "reqs", "lat", "login_attempts", "a"];
 const STR_VALUES: &[&str] = &["x", "y", "", "ferris", "true", "42", "-1", "a", "\"q\"", "é", "日本"];
 
+/// a long value: hundreds to thousands of bytes (past any "reasonable" label length), ASCII or multi-byte
+fn long_string(r: &mut Rng) -> String {
+    let piece = *r.pick(&["x", "ab", "é", "日本", "🦀", " ", "\"", "0123456789"]);
+    let target = *r.pick(&[120usize, 255, 256, 257, 1000, 4096, 5000]);
+    let mut out = String::new();
+    while out.chars().count() < target {
+        out.push_str(piece);
+    }
+    if r.chance(1, 2) {
+        out.push_str("<end>");
+    }
+    out
+}
+
 fn gen_str_value(r: &mut Rng) -> String {
-    if r.chance(1, 6) {
+    if r.chance(1, 14) {
+        long_string(r)
+    } else if r.chance(1, 6) {
         wild_string(r, false)
     } else {
         r.pick_str(STR_VALUES).to_string()
@@ -970,8 +1302,18 @@ fn gen_str_value(r: &mut Rng) -> String {
 }
 
 fn gen_val(r: &mut Rng, allow_empty: bool) -> Val {
-    let w = r.weighted(&[8, 3, 4, 2, 3, 1, 2, 1, 1, 2, 2, 2, if allow_empty { 7 } else { 1 }]);
+    let w = r.weighted(&[8, 3, 4, 2, 3, 1, 2, 1, 1, 2, 2, 2, if allow_empty { 7 } else { 1 }, 1, 1, 2]);
     match w {
+        13 => Val::Err(gen_str_value(r)),
+        14 => Val::Bytes((0..r.below(40)).map(|_| r.next() as u8).collect()),
+        // integers and floats anywhere in their range
+        15 => match r.below(5) {
+            0 => Val::I64(r.next() as i64),
+            1 => Val::U64(r.next()),
+            2 => Val::I128(((r.next() as u128) << 64 | r.next() as u128) as i128),
+            3 => Val::U128((r.next() as u128) << 64 | r.next() as u128),
+            _ => Val::F64(f64::from_bits(r.next())),
+        },
         0 => Val::Str(gen_str_value(r)),
         1 => Val::Bool(r.chance(1, 2)),
         2 => Val::I64(*r.pick(&[0i64, 1, -1, 42, i64::MIN, i64::MAX, -7])),
@@ -984,7 +1326,8 @@ fn gen_val(r: &mut Rng, allow_empty: bool) -> Val {
         9 => Val::Dbg(gen_str_value(r)),
         10 => Val::Disp(gen_str_value(r)),
         11 => Val::OptU(if r.chance(1, 2) { Some(r.below(100) as u64) } else { None }),
-        _ => Val::Empty,
+        12 => Val::Empty,
+        _ => unreachable!(),
     }
 }
 
@@ -1110,6 +1453,9 @@ fn gen_program(r: &mut Rng, thorough: bool) -> Program {
         }
     };
     let layer = !r.chance(1, 14);
+    let comp = if layer { r.weighted(&[10, 3, 3, 3, 3, 3, 2]) } else { 0 };
+    let kind_of = |meta: usize| span_kind(layer, comp, meta);
+    let mut metas: Vec<usize> = vec![]; // metadata variant of every span created so far
     // flavour of the program: how often a new span is a wide one / a near-miss one, how eagerly handles are dropped
     let wide_pct = *r.pick(&[0usize, 0, 20, 50, 80]);
     let near_pct = *r.pick(&[0usize, 10, 10, 40]);
@@ -1124,7 +1470,7 @@ fn gen_program(r: &mut Rng, thorough: bool) -> Program {
     while ops.len() < n_ops {
         let t = r.below(threads);
         let live: Vec<usize> = (0..shapes.len()).filter(|i| alive[*i]).collect();
-        let w = if live.is_empty() { 0 } else { r.weighted(&[25, 18, 12, 15, 30, close_w]) };
+        let w = if live.is_empty() { 0 } else { r.weighted(&[25, 18, 12, 15, 30, close_w, 7, 3]) };
         match w {
             0 => {
                 let shape = if r.below(100) < wide_pct {
@@ -1145,27 +1491,52 @@ fn gen_program(r: &mut Rng, thorough: bool) -> Program {
                         _ => ParSpec::Of(*r.pick(&live)),
                     }
                 };
+                let meta = if WIDE_SHAPES.contains(&shape) { 0 } else { r.weighted(&if comp >= 2 { [5, 3, 2, 3] } else { [8, 1, 2, 1] }) };
                 parent.push(match &par {
+                    _ if kind_of(meta) == Kind::Off => None,
                     ParSpec::Ctx => g_current(&stacks[t]),
                     ParSpec::Root => None,
+                    ParSpec::Of(p) if kind_of(metas[*p]) == Kind::Off => None,
                     ParSpec::Of(p) => Some(*p),
                 });
+                metas.push(meta);
                 // wide spans mostly carry values (an Empty field makes no label)
                 let allow_empty = shape < 12 || r.chance(1, 4);
                 let vals = SHAPES[shape].iter().map(|_| gen_val(r, allow_empty)).collect();
-                ops.push(POp::New { t, parent: par, shape, vals });
+                ops.push(POp::New { t, parent: par, shape, meta, vals });
                 shapes.push(shape);
                 alive.push(true);
                 if r.chance(3, 5) {
                     let id = shapes.len() - 1;
                     ops.push(POp::Enter { t, id });
-                    g_push(&mut stacks[t], id);
+                    if kind_of(meta) != Kind::Off {
+                        g_push(&mut stacks[t], id);
+                    }
                 }
             }
             1 => {
                 let id = *r.pick(&live);
                 ops.push(POp::Enter { t, id });
-                g_push(&mut stacks[t], id);
+                if kind_of(metas[id]) != Kind::Off {
+                    g_push(&mut stacks[t], id);
+                }
+            }
+            6 => {
+                let par = match r.weighted(&[12, 2, 4]) {
+                    0 => ParSpec::Ctx,
+                    1 => ParSpec::Root,
+                    _ => ParSpec::Of(*r.pick(&live)),
+                };
+                let es = r.below(EVENT_SHAPES.len());
+                let vals = EVENT_SHAPES[es].iter().map(|_| gen_val(r, false)).collect();
+                ops.push(POp::Event { t, parent: par, es, vals });
+            }
+            7 => {
+                let on: Vec<usize> = live.iter().cloned().filter(|i| kind_of(metas[*i]) != Kind::Off).collect();
+                if on.is_empty() {
+                    continue;
+                }
+                ops.push(POp::Follows { t, id: *r.pick(&on), other: *r.pick(&on) });
             }
             2 => {
                 let id = if !stacks[t].is_empty() && r.chance(15, 20) {
@@ -1223,7 +1594,7 @@ fn gen_program(r: &mut Rng, thorough: bool) -> Program {
         ops.push(POp::Emit { t, how: r.below(5), name: r.pick_str(METRIC_NAMES).to_string(), labels: gen_labels(r) });
     }
     let probes = gen_probes(r, &filter);
-    Program { filter, threads, layer, ops, probes }
+    Program { filter, threads, layer, comp, ops, probes }
 }
 
 // ---------------------------------------------------------------------------------------------
@@ -1242,7 +1613,10 @@ fn emit(t: usize, how: usize, name: &str, kv: &[(&str, &str)]) -> POp {
     POp::Emit { t, how, name: name.to_string(), labels: l(kv) }
 }
 fn new(t: usize, parent: ParSpec, shape: usize, vals: Vec<Val>) -> POp {
-    POp::New { t, parent, shape, vals }
+    POp::New { t, parent, shape, meta: 0, vals }
+}
+fn newm(t: usize, parent: ParSpec, shape: usize, meta: usize, vals: Vec<Val>) -> POp {
+    POp::New { t, parent, shape, meta, vals }
 }
 
 fn corpus() -> Vec<(&'static str, Program)> {
@@ -1254,6 +1628,7 @@ fn corpus() -> Vec<(&'static str, Program)> {
                 filter: FilterSpec::All,
                 threads: 1,
                 layer: true,
+                comp: 0,
                 probes: vec![],
                 ops: vec![
                     new(0, ParSpec::Ctx, 6, vec![s("oa"), s("ob"), s("oc")]),
@@ -1274,6 +1649,7 @@ fn corpus() -> Vec<(&'static str, Program)> {
                 filter: FilterSpec::All,
                 threads: 1,
                 layer: true,
+                comp: 0,
                 probes: vec![],
                 ops: vec![
                     new(0, ParSpec::Ctx, 3, vec![s("pa"), Val::Empty]),
@@ -1300,6 +1676,7 @@ fn corpus() -> Vec<(&'static str, Program)> {
                 filter: FilterSpec::All,
                 threads: 1,
                 layer: true,
+                comp: 0,
                 probes: vec![],
                 ops: vec![
                     new(0, ParSpec::Root, 4, vec![s("pb"), s("pa")]),
@@ -1321,6 +1698,7 @@ fn corpus() -> Vec<(&'static str, Program)> {
                 filter: FilterSpec::Custom(2, 0),
                 threads: 1,
                 layer: true,
+                comp: 0,
                 probes: vec![],
                 ops: vec![
                     new(0, ParSpec::Ctx, 1, vec![s("y")]),
@@ -1339,6 +1717,7 @@ fn corpus() -> Vec<(&'static str, Program)> {
                 filter: FilterSpec::All,
                 threads: 1,
                 layer: true,
+                comp: 0,
                 probes: vec![],
                 ops: vec![
                     emit(0, 0, "m", &[("a", "1"), ("a", "2")]),
@@ -1360,6 +1739,7 @@ fn corpus() -> Vec<(&'static str, Program)> {
                 filter: FilterSpec::All,
                 threads: 1,
                 layer: true,
+                comp: 0,
                 probes: vec![],
                 ops: vec![
                     new(0, ParSpec::Root, 1, vec![s("A")]),
@@ -1384,6 +1764,7 @@ fn corpus() -> Vec<(&'static str, Program)> {
                 filter: FilterSpec::All,
                 threads: 2,
                 layer: true,
+                comp: 0,
                 probes: vec![],
                 ops: vec![
                     new(0, ParSpec::Ctx, 1, vec![s("t0")]),
@@ -1409,6 +1790,7 @@ fn corpus() -> Vec<(&'static str, Program)> {
                 filter: FilterSpec::Allow(vec!["b".into(), "k.x".into()]),
                 threads: 1,
                 layer: true,
+                comp: 0,
                 probes: vec![],
                 ops: vec![
                     new(0, ParSpec::Ctx, 10, vec![s("1"), s("2"), s("3"), s("4")]),
@@ -1424,6 +1806,7 @@ fn corpus() -> Vec<(&'static str, Program)> {
                 filter: FilterSpec::All,
                 threads: 1,
                 layer: true,
+                comp: 0,
                 probes: vec![],
                 ops: vec![
                     new(0, ParSpec::Ctx, 12, strs("va", 20)),
@@ -1466,6 +1849,7 @@ fn corpus() -> Vec<(&'static str, Program)> {
                 filter: FilterSpec::Allow(vec!["a".into(), "a00".into(), "b07".into()]),
                 threads: 2,
                 layer: true,
+                comp: 0,
                 probes: vec![],
                 ops: vec![
                     new(1, ParSpec::Ctx, 12, strs("va", 20)),
@@ -1496,6 +1880,7 @@ fn corpus() -> Vec<(&'static str, Program)> {
                 filter: FilterSpec::All,
                 threads: 1,
                 layer: false,
+                comp: 0,
                 probes: vec![],
                 ops: vec![
                     new(0, ParSpec::Ctx, 6, vec![s("oa"), s("ob"), s("oc")]),
@@ -1517,6 +1902,7 @@ fn corpus() -> Vec<(&'static str, Program)> {
                 filter: FilterSpec::Allow(vec!["A".into(), "k".into(), "a0".into(), " a".into(), "a ".into(), "k.".into(), "".into()]),
                 threads: 1,
                 layer: true,
+                comp: 0,
                 probes: vec![],
                 ops: vec![
                     new(0, ParSpec::Ctx, 16, vec![s("vA"), s("vab"), s("vk"), s("va")]),
@@ -1537,6 +1923,7 @@ fn corpus() -> Vec<(&'static str, Program)> {
                 filter: FilterSpec::Allow(vec!["région".into(), "env".into()]),
                 threads: 1,
                 layer: true,
+                comp: 0,
                 probes: vec![
                     ("m".into(), "région".into(), "eu".into()),
                     ("m".into(), "region".into(), "eu".into()),
@@ -1564,6 +1951,7 @@ fn corpus() -> Vec<(&'static str, Program)> {
                 filter: FilterSpec::Allow(vec!["地域".into()]),
                 threads: 1,
                 layer: true,
+                comp: 0,
                 probes: vec![
                     ("m".into(), "地域".into(), "v".into()),
                     ("m".into(), "地".into(), "v".into()),
@@ -1588,6 +1976,7 @@ fn corpus() -> Vec<(&'static str, Program)> {
                 filter: FilterSpec::Allow(vec!["🦀".into(), "région".into(), "k.ü".into(), "ñ".into(), "a".into()]),
                 threads: 1,
                 layer: true,
+                comp: 0,
                 probes: vec![
                     ("m".into(), "🦀".into(), "v".into()),
                     ("m".into(), "ñ".into(), "v".into()),
@@ -1606,11 +1995,153 @@ fn corpus() -> Vec<(&'static str, Program)> {
             },
         ),
         (
+            "per-layer filter: emission inside a hidden span; its child inherits from the closest enabled ancestor as it is then",
+            Program {
+                filter: FilterSpec::All,
+                threads: 1,
+                layer: true,
+                comp: 3,
+                probes: vec![],
+                ops: vec![
+                    newm(0, ParSpec::Ctx, 3, 0, vec![s("oa"), Val::Empty]),
+                    Enter { t: 0, id: 0 },
+                    newm(0, ParSpec::Ctx, 5, 1, vec![s("hb"), s("hc")]),
+                    Enter { t: 0, id: 1 },
+                    emit(0, 0, "m", &[("svc", "x")]),
+                    Rec { t: 0, id: 0, field: "b", val: s("late") },
+                    Rec { t: 0, id: 1, field: "c", val: s("never") },
+                    newm(0, ParSpec::Ctx, 7, 2, vec![s("cc"), Val::Empty]),
+                    Enter { t: 0, id: 2 },
+                    emit(0, 1, "m", &[("a", "own")]),
+                    Event { t: 0, parent: ParSpec::Ctx, es: 0, vals: vec![s("ea"), s("eb")] },
+                    Follows { t: 0, id: 2, other: 0 },
+                    emit(0, 2, "m", &[]),
+                    newm(0, ParSpec::Of(1), 1, 3, vec![s("deep")]),
+                    newm(0, ParSpec::Of(3), 2, 0, vec![Val::Empty]),
+                    Exit { t: 0, id: 2 },
+                    Enter { t: 0, id: 4 },
+                    emit(0, 0, "m", &[]),
+                ],
+            },
+        ),
+        (
+            "per-layer filters by span name and by target, layers below and above",
+            Program {
+                filter: FilterSpec::Allow(vec!["a".into(), "c".into()]),
+                threads: 1,
+                layer: true,
+                comp: 5,
+                probes: vec![],
+                ops: vec![
+                    newm(0, ParSpec::Ctx, 6, 1, vec![s("oa"), s("ob"), s("oc")]),
+                    Enter { t: 0, id: 0 },
+                    newm(0, ParSpec::Ctx, 1, 3, vec![s("hidden")]),
+                    Enter { t: 0, id: 1 },
+                    emit(0, 0, "m", &[]),
+                    newm(0, ParSpec::Ctx, 2, 2, vec![s("ib")]),
+                    Enter { t: 0, id: 2 },
+                    emit(0, 0, "m", &[("c", "own")]),
+                ],
+            },
+        ),
+        (
+            "global level filter: a disabled span is no span (enter, record, parent of it do nothing)",
+            Program {
+                filter: FilterSpec::All,
+                threads: 1,
+                layer: true,
+                comp: 2,
+                probes: vec![],
+                ops: vec![
+                    newm(0, ParSpec::Ctx, 3, 2, vec![s("oa"), s("ob")]),
+                    Enter { t: 0, id: 0 },
+                    newm(0, ParSpec::Ctx, 5, 3, vec![s("xb"), s("xc")]),
+                    Enter { t: 0, id: 1 },
+                    Rec { t: 0, id: 1, field: "b", val: s("r") },
+                    emit(0, 0, "m", &[]),
+                    newm(0, ParSpec::Ctx, 7, 0, vec![s("cc"), Val::Empty]),
+                    newm(0, ParSpec::Of(1), 1, 0, vec![s("root?")]),
+                    Event { t: 0, parent: ParSpec::Of(1), es: 1, vals: vec![s("1"), s("2"), s("3")] },
+                    Exit { t: 0, id: 1 },
+                    Enter { t: 0, id: 3 },
+                    emit(0, 0, "m", &[]),
+                    Close { t: 0, id: 1 },
+                    emit(0, 0, "m", &[]),
+                ],
+            },
+        ),
+        (
+            "a filtered MetricsLayer alone: what it turns down nobody wants",
+            Program {
+                filter: FilterSpec::All,
+                threads: 2,
+                layer: true,
+                comp: 6,
+                probes: vec![],
+                ops: vec![
+                    newm(0, ParSpec::Ctx, 1, 0, vec![s("oa")]),
+                    Enter { t: 0, id: 0 },
+                    newm(0, ParSpec::Ctx, 2, 1, vec![s("xb")]),
+                    Enter { t: 0, id: 1 },
+                    newm(1, ParSpec::Of(1), 5, 2, vec![s("b1"), s("c1")]),
+                    Enter { t: 1, id: 2 },
+                    emit(0, 0, "m", &[]),
+                    emit(1, 0, "m", &[]),
+                ],
+            },
+        ),
+        (
+            "events with the span's field names, follows_from a span with other fields, layers below and above",
+            Program {
+                filter: FilterSpec::All,
+                threads: 1,
+                layer: true,
+                comp: 1,
+                probes: vec![],
+                ops: vec![
+                    newm(0, ParSpec::Ctx, 3, 2, vec![s("sa"), Val::Empty]),
+                    newm(0, ParSpec::Root, 9, 3, vec![s("fc"), s("fk"), s("fb")]),
+                    Enter { t: 0, id: 0 },
+                    Event { t: 0, parent: ParSpec::Ctx, es: 0, vals: vec![s("event-a"), s("event-b")] },
+                    Event { t: 0, parent: ParSpec::Of(1), es: 1, vals: vec![s("e1"), s("e2"), s("e3")] },
+                    Event { t: 0, parent: ParSpec::Root, es: 2, vals: vec![s("e1"), s("e2")] },
+                    emit(0, 0, "m", &[]),
+                    Follows { t: 0, id: 0, other: 1 },
+                    emit(0, 0, "m", &[]),
+                    Follows { t: 0, id: 0, other: 0 },
+                    new(0, ParSpec::Ctx, 0, vec![]),
+                    Enter { t: 0, id: 2 },
+                    emit(0, 0, "m", &[("zz", "own")]),
+                ],
+            },
+        ),
+        (
+            "values of thousands of bytes, errors, byte strings, integers at the ends of 128 bits",
+            Program {
+                filter: FilterSpec::All,
+                threads: 1,
+                layer: true,
+                comp: 0,
+                probes: vec![],
+                ops: vec![
+                    new(0, ParSpec::Ctx, 10, vec![s(&"x".repeat(257)), Val::Dbg("é".repeat(300)), Val::Disp("日本".repeat(2000)), Val::Err("boom: ".repeat(100))]),
+                    Enter { t: 0, id: 0 },
+                    emit(0, 0, "m", &[]),
+                    Rec { t: 0, id: 0, field: "a", val: Val::Bytes(vec![0, 1, 0xfe, 0xff]) },
+                    Rec { t: 0, id: 0, field: "b", val: Val::I128(i128::MIN) },
+                    Rec { t: 0, id: 0, field: "c", val: Val::U128(u128::MAX) },
+                    Rec { t: 0, id: 0, field: "k.x", val: Val::Str("🦀".repeat(1024)) },
+                    emit(0, 2, "m", &[("a", "own")]),
+                ],
+            },
+        ),
+        (
             "a field name twice in one span",
             Program {
                 filter: FilterSpec::Allow(vec![]),
                 threads: 1,
                 layer: true,
+                comp: 0,
                 probes: vec![],
                 ops: vec![
                     new(0, ParSpec::Ctx, 11, vec![s("first"), s("second")]),
@@ -1642,7 +2173,10 @@ pub fn run(cfg: &Cfg, out: &mut Out) {
         let prog = gen_program(&mut r, cfg.thorough);
         for op in &prog.ops {
             match op {
-                POp::New { parent, vals, shape, .. } => {
+                POp::Event { .. } => out.count("event"),
+                POp::Follows { .. } => out.count("follows_from"),
+                POp::New { parent, vals, shape, meta, .. } => {
+                    out.count(&format!("span metadata: {:?}", METAS[*meta]));
                     out.count(match parent {
                         ParSpec::Ctx => "new:contextual",
                         ParSpec::Root => "new:root",
@@ -1650,6 +2184,9 @@ pub fn run(cfg: &Cfg, out: &mut Out) {
                     });
                     for v in vals {
                         out.count(&format!("value:{}", v.kind()));
+                        if v.rendered().map_or(false, |x| x.len() >= 256) {
+                            out.count("value of 256 bytes or more");
+                        }
                     }
                     if WIDE_SHAPES.contains(shape) {
                         out.count("new:wide shape (20-32 fields)");
@@ -1742,7 +2279,7 @@ pub fn run_concurrent(cfg: &Cfg, out: &mut Out) {
                 let span = tracing::dispatcher::with_default(&dispatch, || {
                     let boxes: Vec<Box<dyn Value>> = init.iter().map(|v| v.boxed()).collect();
                     let refs: Vec<&dyn Value> = boxes.iter().map(|b| &**b).collect();
-                    make_span(*shape, Par::Root, &refs)
+                    make_span(*shape, (si + round) % 3, Par::Root, &refs)
                 });
                 let gate = Arc::new(Gate { state: Mutex::new((false, false)), cv: std::sync::Condvar::new() });
                 let t0 = std::time::Instant::now();
